@@ -68,7 +68,7 @@ class UpdaterModel:
         self.dispatch = None
         for b in cands:
             # private traits with one implementation are looked through; the segment write itself stays an opaque call
-            eng = common.mk_engine(fb, unique_impls=True, no_inline=lambda x: is_shm_write(x.path))
+            eng = common.mk_engine(fb, unique_impls=True, havoc_loops=True, no_inline=lambda x: is_shm_write(x.path))
             paths = [p for p in eng.run(b) if p.kind != 'unreachable']
             if any(any(ef['kind'] == 'call' and is_shm_write(ef['callee']) for ef in p.effects) for p in paths):
                 self.dispatch = b
